@@ -51,12 +51,17 @@ REQUIRED_PROBES = ['t==begin', 't==end-1', 't==end'] + \
      'replay_after_expiry', 'cross_lock_witness', 'cert_roundtrip',
      'honest_accept_single', 'honest_accept_chain', 'threshold_per_call',
      'second_hierarchy', 'foreign_witness_verified_under_own_root_first',
-     'default_timestamp', 'crafted_witness', 'witness_with_code', 'witness_ending_in_return']
+     'default_timestamp', 'crafted_witness', 'witness_with_code', 'witness_ending_in_return',
+     'crafted_marker', 'lock_form_bytes', 'lock_form_resrc', 'lock_form_redec', 'explicit_limits']
 NAMES = ['K', 'Kp'] + ['D%d' % i for i in range(1, 7)] + ['F%d' % i for i in range(1, 7)]
 FIELD_RANGE = {'key': (0, 32), 'begin': (32, 36), 'end': (36, 40), 'can': (40, 41),
                'sig': (41, 105)}
 EDGE_TS = [0, 1, 127, 128, 255, 256, 2 ** 15 - 1, 2 ** 15, 2 ** 23 - 1, 2 ** 23,
            2 ** 31 - 2, 2 ** 31 - 1]
+
+
+MARKERS = ['0001', '00ff', '0100', 'ff00', '000000', '01', '80', '00ff00', '00' * 40 + '01',
+           'ffff']
 
 
 def decode_cell(i):
@@ -140,6 +145,9 @@ def gen_step(rng, cell, clocks, vname, at_us, thr, fault_free):
         step['attack'] = {'kind': 'flip_final_sig', 'bit': rng.below(512)}
     elif a == 'flip_marker' and lock == 'chain':
         step['attack'] = {'kind': 'flip_marker', 'link': rng.below(ln), 'bit': rng.below(8)}
+        if rng.chance(1, 3):
+            # a marker of the attacker's own making: longer or shorter than one byte
+            step['attack'] = {'kind': 'marker', 'link': rng.below(ln), 'val': rng.choice(MARKERS)}
     elif a == 'splice':
         step['attack'] = {'kind': 'splice', 'cert': rng.below(ln)}
     elif a == 'foreign_witness':
@@ -155,7 +163,11 @@ def gen_step(rng, cell, clocks, vname, at_us, thr, fault_free):
         x = rng.below(ln - 1)
         step['attack'] = {'kind': 'swap', 'a': x, 'b': x + 1}
     elif a == 'nodelegate' and ln >= 2:
-        chain[rng.below(ln - 1)]['can'] = False
+        j = rng.below(ln - 1)
+        chain[j]['can'] = False
+        if rng.chance(1, 2):
+            # ... and the holder of the terminal certificate tries markers no builder emits
+            step['attack'] = {'kind': 'marker', 'link': j, 'val': rng.choice(MARKERS)}
     elif a == 'wrong_signer':
         step['signer'] = rng.choice(['%s%d' % (pre, k) for k in range(1, 7) if k != ln] + [root])
     elif a == 'cross_lock':
@@ -519,6 +531,9 @@ def attack(items, atk, step, keys, run):
         b[bit // 8] ^= 1 << (bit % 8)
         items[0] = bytes(b)
         run.probe('field_flip_final_sig')
+    elif k == 'marker' and chainw:
+        items[cert_pos(atk['link']) - 1] = bytes.fromhex(atk['val'])
+        run.probe('crafted_marker')
     elif k == 'flip_marker' and chainw:
         pos = cert_pos(atk['link']) - 1
         b = bytearray(items[pos])
